@@ -19,6 +19,7 @@ import (
 type Clause struct {
 	Label string
 	Expr  string
+	Props []string // non-empty: the clause is an obligation only of these properties
 }
 
 type Lemma struct {
@@ -91,12 +92,18 @@ type PureFn struct {
 	Opaque bool // used as an uninterpreted function; its definition is a pattern-guarded axiom
 }
 
-var labelRe = regexp.MustCompile(`^([A-Za-z_][A-Za-z0-9_.\-]*):\s+(.*)$`)
+var labelRe = regexp.MustCompile(`^([A-Za-z_][A-Za-z0-9_.\-]*)(@[A-Z0-9,]+)?:\s+(.*)$`)
 
+// splitLabel parses `label: expr` or `label@C17,C09: expr` (the clause then belongs only to the
+// listed properties instead of all properties of its function).
 func splitLabel(s string) Clause {
 	s = strings.TrimSpace(s)
-	if m := labelRe.FindStringSubmatch(s); m != nil && !strings.HasPrefix(m[2], ":") {
-		return Clause{Label: m[1], Expr: m[2]}
+	if m := labelRe.FindStringSubmatch(s); m != nil && !strings.HasPrefix(m[3], ":") {
+		c := Clause{Label: m[1], Expr: m[3]}
+		if m[2] != "" {
+			c.Props = strings.Split(m[2][1:], ",")
+		}
+		return c
 	}
 	return Clause{Expr: s}
 }
